@@ -56,11 +56,16 @@ def assign_canonical_labels(m: nx.Graph) -> dict[int, int]:
     """
 
     m_igraph = iGraph.from_networkx(m)
-    old_labels = m_igraph.vs["_nx_name"]
     partitions = m_igraph.vs[PARTITION]
-    canonical_labels = m_igraph.canonical_permutation(color=partitions)
+    canonical_permutation = m_igraph.canonical_permutation(color=partitions)
 
-    return dict(zip(old_labels, canonical_labels))
+    # Read the labels off the canonical form itself. Whether the permutation
+    # vector maps old to new vertex IDs or vice versa differs between igraph
+    # versions, whereas `permute_vertices` is documented to yield the canonical
+    # form when given the result of `canonical_permutation`.
+    m_canonical = m_igraph.permute_vertices(canonical_permutation)
+
+    return dict(zip(m_canonical.vs["_nx_name"], range(m_canonical.vcount())))
 
 
 def canonicalize_molecule(m: nx.Graph) -> nx.Graph:
